@@ -165,15 +165,13 @@ counters and the execution log are unchanged by that call. -/
 theorem C02_unrelated_writes_nested_partial (fuel cap : Nat) (P : Prog) (rank : Nat → Nat) (pre : List Op) (f a : Nat)
     (ws : List Op) (hacy : Acyclic P rank) (hrank : ∀ g, rank g < fuel)
     (hclean : CleanCalls fuel cap P (pre ++ [.call f a]))
-    (hws : ∀ op, op ∈ ws →
-      match op.srcKey with
-      | some k => Avoids (after fuel cap P (pre ++ [.call f a])).derived k fuel (nodeOf P f a)
-      | none => False) :
+    (hws : ∀ op, op ∈ ws → OpAvoids (after fuel cap P (pre ++ [.call f a])).derived fuel (nodeOf P f a) op) :
     (after fuel cap P (pre ++ .call f a :: ws ++ [.call f a])).runs = (after fuel cap P (pre ++ .call f a :: ws)).runs ∧
     (after fuel cap P (pre ++ .call f a :: ws ++ [.call f a])).log = (after fuel cap P (pre ++ .call f a :: ws)).log := by
   refine unrelated_writes_no_rerun hacy fuel cap hrank pre f a ws hclean ?_
   intro op hop
   have := hws op hop
+  unfold OpAvoids at this
   cases hk : op.srcKey with
   | none => rw [hk] at this; exact absurd this id
   | some k => rw [hk] at this; exact ⟨k, rfl, this⟩
@@ -193,9 +191,7 @@ write, a tracked-field insert — none is in the recorded closure of `t(0)`. -/
 example : Acyclic progF22 (fun i => 4 - i) ∧ (∀ g, (fun i => 4 - i) g < 6) ∧
     CleanCalls 6 10 progF22 ([.set 0 1, .set 2 1, .set 3 0, .set 5 5] ++ [.call 0 0]) ∧
     (∀ op, op ∈ [Op.set 5 6, .rem 3, .sset 1 4, .tins 0 3, .set 7 1, .set 5 5] →
-      match op.srcKey with
-      | some k => Avoids (after 6 10 progF22 ([.set 0 1, .set 2 1, .set 3 0, .set 5 5] ++ [.call 0 0])).derived k 6 (nodeOf progF22 0 0)
-      | none => False) :=
+      OpAvoids (after 6 10 progF22 ([.set 0 1, .set 2 1, .set 3 0, .set 5 5] ++ [.call 0 0])).derived 6 (nodeOf progF22 0 0) op) :=
   ⟨acyclic_of_bounded _ _ (by decide), fun g => by simp; omega, cleanCalls_of_B _ _ _ _ (by decide +kernel),
    by decide +kernel⟩
 
